@@ -31,7 +31,8 @@ type RFiring struct {
 	Err      string
 	Answer   Answer
 	GasOut   uint64
-	At       int // position in the interleaved event log
+	At       int    // position in the interleaved event log
+	RealErr  string // real runtime: error text the Aspect execution ended with
 }
 
 type RunOpts struct {
@@ -48,6 +49,8 @@ type RunOpts struct {
 	OnEvent func(kind byte)
 	// BeforeNew is called right before the EVM is constructed (scheduling point seam).
 	BeforeNew func()
+	// TopGas overrides the gas of the top-level call (0: scn.TopGas).
+	TopGas uint64
 }
 
 type Run struct {
@@ -83,6 +86,9 @@ var RevertRet = run.PackRevert("aspect says no")
 // Exec runs the scenario's top-level call.
 func Exec(s *Scn, o RunOpts) *Run {
 	cs := s.Case()
+	if o.TopGas != 0 {
+		cs.Gas = o.TopGas
+	}
 	r := &Run{Case: cs}
 	rec := &world.ARec{KeepAll: true, Rec: world.Rec{NoData: !o.Full}}
 	r.Rec = rec
@@ -102,6 +108,44 @@ func Exec(s *Scn, o RunOpts) *Run {
 		return a
 	}
 	pendingProvider := map[string]*Answer{}
+	var realQueue []Answer
+	if world.RealRunner {
+		// no stub runner: Aspect executions are observed through the Aspect logger events
+		rec.OnAspect = func(enter bool, jp atypes.JoinPointRunType, from, to, aspect common.Address, input []byte, gas uint64, value *big.Int, req proto.Message, res *atypes.AspectExecutionResult) {
+			if enter {
+				f := RFiring{Pre: jp == atypes.JoinPointRunType_PreContractCall, Contract: to, Aspect: aspect, GasIn: gas, From: from, To: to, Data: append([]byte{}, input...)}
+				if len(realQueue) > 0 {
+					f.Answer = realQueue[0]
+					realQueue = realQueue[1:]
+				}
+				switch q := req.(type) {
+				case *atypes.PreContractCallInput:
+					if q.Call.Index != nil {
+						f.Index = *q.Call.Index
+					}
+					f.Value = append([]byte{}, q.Call.Value...)
+				case *atypes.PostContractCallInput:
+					if q.Call.Index != nil {
+						f.Index = *q.Call.Index
+					}
+					f.Value = append([]byte{}, q.Call.Value...)
+					f.Ret = append([]byte{}, q.Call.Ret...)
+					if q.Call.Error != nil {
+						f.Err = *q.Call.Error
+					}
+				}
+				f.At = len(rec.All)
+				r.Firings = append(r.Firings, f)
+				return
+			}
+			if n := len(r.Firings); n > 0 {
+				r.Firings[n-1].GasOut = res.Gas
+				if res.Err != nil {
+					r.Firings[n-1].RealErr = res.Err.Error()
+				}
+			}
+		}
+	}
 	host := &world.Host{
 		Bound: func(contract common.Address, cut atypes.PointCut) ([]*atypes.AspectCode, error) {
 			r.Provider = append(r.Provider, fmt.Sprintf("%x %s", contract[:], cut))
@@ -116,6 +160,16 @@ func Exec(s *Scn, o RunOpts) *Run {
 				rec.All = append(rec.All, fmt.Sprintf("P! %x %s", contract[:], cut))
 				r.Firings = append(r.Firings, RFiring{Pre: pre, Contract: contract, Answer: a, Err: "provider", At: len(rec.All) - 1})
 				return nil, errProvider
+			}
+			if world.RealRunner {
+				// real runtime: the answer selects the WASM module (one Aspect per join point; reverts need the host
+				// API and are run as traps)
+				if a.Kind == 2 {
+					a.Kind = 3
+					r.Answers[len(r.Answers)-1] = a
+				}
+				realQueue = append(realQueue, a)
+				return []*atypes.AspectCode{{AspectId: AspectIDs[0].Hex(), Version: 1, Code: WasmFor(a.Kind)}}, nil
 			}
 			pendingProvider[string(cut)+string(contract[:])] = &a
 			var out []*atypes.AspectCode
